@@ -706,6 +706,21 @@ def run(ctx):
             for ci in mi.classes.values():
                 containers |= {nm for nm, node in ci.attrs.items() if isinstance(node, (ast.List, ast.Dict, ast.Set))}
             for what, node in _global_state_hits(mi.tree, containers):
+                if what.startswith('cache decorator on '):
+                    # a memo on a pure function of hashable arguments with immutable results cannot be told from
+                    # recomputation (purity.py decides that); anything else shares state between calls
+                    from .purity import _transparent_memo
+                    fname = what[len('cache decorator on '):]
+                    owner = [f for f in p.functions.values() if f.module is mi and f.name == fname and node in f.node.decorator_list]
+                    tr = _transparent_memo(p, owner[0], node) if owner else False
+                    if tr is True:
+                        ob.evaluations += 1
+                        ob.note('%s: transparent memo (immutable results of a function of its arguments alone)' % what)
+                        continue
+                    if tr is None:
+                        ob.undecided('%s: %s - whether a stored result can differ from a fresh one is not decided' % (what, ast.unparse(node)[:80]),
+                                     '%s:%d' % (mi.relpath, node.lineno))
+                        continue
                 ob.require(False, '%s: %s' % (what, ast.unparse(node)[:80]), '%s:%d' % (mi.relpath, node.lineno))
             ob.evaluations += 1
             ob.saw(mi.relpath)
